@@ -176,6 +176,15 @@ class C01(Check):
             'width sweep over 15 flat families with measured scaling; parser options x fetchers; '
             'non-trivial = distinct input text that is not well-formed CSS or exceeds depth 3 / width 50')
 
+    def translate(self, ctx):
+        """Props/C01 re-exports theorems of the tokenizer (C05) and structure (C04) kernels: their generated tables
+        must be regenerated from the current tree for this check too"""
+        files = {}
+        from harness import c05, c04
+        files.update(c05.CHECK.translate(ctx))
+        files.update(c04.CHECK.translate(ctx))
+        return files
+
     def run(self, ctx):
         ctx.phase(self.corr_sercost, ctx)
         ctx.phase(self.oracle_streams, ctx)
